@@ -7,6 +7,7 @@ import (
 	"fmt"
 	"regexp"
 	"sort"
+	"strconv"
 	"strings"
 
 	"ariga.io/atlas/sql/schema"
@@ -59,6 +60,28 @@ var (
 	TableNames = []string{"t1", "t2"}
 	ColNames   = []string{"a", "b", "c"}
 )
+
+// isOne: the default expression of a column with INTEGER affinity stores the integer 1: a numeric literal equal to one, TRUE, or a
+// string literal that the affinity converts to one (decimal forms only: '0x1' stays text).
+func isOne(d string) bool {
+	d = strings.TrimSpace(d)
+	for strings.HasPrefix(d, "(") && strings.HasSuffix(d, ")") {
+		d = strings.TrimSpace(d[1 : len(d)-1])
+	}
+	if strings.EqualFold(d, "true") {
+		return true
+	}
+	quoted := false
+	if len(d) >= 2 && (d[0] == '\'' && d[len(d)-1] == '\'' || d[0] == '"' && d[len(d)-1] == '"') {
+		d, quoted = d[1:len(d)-1], true
+	}
+	if !quoted && (strings.HasPrefix(d, "0x") || strings.HasPrefix(d, "0X")) {
+		n, err := strconv.ParseInt(d[2:], 16, 64)
+		return err == nil && n == 1
+	}
+	f, err := strconv.ParseFloat(d, 64)
+	return err == nil && f == 1
+}
 
 func NoCol() Col { return Col{Type: "-", Dflt: "none"} }
 
@@ -122,7 +145,10 @@ func ExprText(id string) string {
 
 // DDL renders the statements that create state st on an empty database (tables in an order that satisfies nothing in
 // particular: SQLite does not check foreign-key targets at CREATE time).
-func DDL(st State) []string {
+func DDL(st State) []string { return DDLWith(st, "") }
+
+// DDLWith renders the state with the default "one" of INTEGER columns written as intDefault (when not empty).
+func DDLWith(st State, intDefault string) []string {
 	var out []string
 	for _, tn := range TableNames {
 		t := st[tn]
@@ -140,7 +166,11 @@ func DDL(st State) []string {
 				d += " NOT NULL"
 			}
 			if c.Dflt != "none" {
-				d += " DEFAULT '1'"
+				if intDefault != "" && c.Type == "INT" {
+					d += " DEFAULT " + intDefault
+				} else {
+					d += " DEFAULT '1'"
+				}
 			}
 			if t.Autoinc && len(t.Pk) == 1 && t.Pk[0] == cn {
 				d += " PRIMARY KEY AUTOINCREMENT"
@@ -292,7 +322,7 @@ var (
 	reAutoinc = regexp.MustCompile(`(?i)\bAUTOINCREMENT\b`)
 	reFKName  = regexp.MustCompile("(?i)CONSTRAINT\\s+[`\"]?(\\w+)[`\"]?\\s+FOREIGN\\s+KEY\\s*\\(\\s*[`\"]?(\\w+)[`\"]?")
 	reCheck   = regexp.MustCompile("(?i)(?:CONSTRAINT\\s+[`\"]?(\\w+)[`\"]?\\s+)?CHECK\\s*\\(")
-	reWhere   = regexp.MustCompile(`(?i)\)\s*WHERE\s+(.*)$`)
+	reWhere   = regexp.MustCompile(`(?is)\)\s*WHERE\s+(.*)$`)
 	reSpace   = regexp.MustCompile(`\s+`)
 )
 
@@ -391,10 +421,10 @@ func Project(db *sql.DB) (State, error) {
 		pk := map[int]string{}
 		for cr.Next() {
 			var (
-				name, typ   string
+				name, typ    string
 				notnull, pkn int
-				hidden      int
-				dflt        sql.NullString
+				hidden       int
+				dflt         sql.NullString
 			)
 			if err := cr.Scan(&name, &typ, &notnull, &dflt, &pkn, &hidden); err != nil {
 				return nil, err
@@ -410,7 +440,7 @@ func Project(db *sql.DB) (State, error) {
 			}
 			if dflt.Valid {
 				// '1' and 1 are the same default for a column with INTEGER affinity
-				if dflt.String == "'1'" || dflt.String == "1" && c.Type == "INT" {
+				if dflt.String == "'1'" || dflt.String == "1" && c.Type == "INT" || c.Type == "INT" && isOne(dflt.String) {
 					c.Dflt = "d1"
 				} else {
 					c.Dflt = dflt.String
